@@ -4,7 +4,7 @@ from .histcommon import *
 ID = 'C05'
 LEVEL = 'model_checking'
 BUDGET = {'quick': 290, 'thorough': 3300}
-BOUNDS = {'quick': 'all histories of depth 2 over a 58-operation alphabet from 7 start states (6 in the quick tier) (fresh, declared, populated, loaded from a file that starts at frame 10, loaded with fewer labels than points, loaded with an empty ANALOG group, loaded with ANALOG:SCALE padded and ANALOG:UNITS unfilled), views checked after every successful call; frame payloads symbolic; rates from {0,50,100}/{0,100,200,300}; plus a kernel with FREE rates: POINT:RATE 100 (thorough: any float in [1,2000]), ANALOG:RATE set twice to any float in [0,20000] with 1..3 declared channels, header analog view vs ANALOG:USED decided by z3 (FP theory for the ratio)',
+BOUNDS = {'quick': 'kernel: 1-2 frames with 2/3 sub-frames all replaced in place by frames with 3/4/1 sub-frames (1-2 channels), views compared at the end; all histories of depth 2 over a 58-operation alphabet from 7 start states (6 in the quick tier) (fresh, declared, populated, loaded from a file that starts at frame 10, loaded with fewer labels than points, loaded with an empty ANALOG group, loaded with ANALOG:SCALE padded and ANALOG:UNITS unfilled), views checked after every successful call; frame payloads symbolic; rates from {0,50,100}/{0,100,200,300}; plus a kernel with FREE rates: POINT:RATE 100 (thorough: any float in [1,2000]), ANALOG:RATE set twice to any float in [0,20000] with 1..3 declared channels, header analog view vs ANALOG:USED decided by z3 (FP theory for the ratio)',
           'thorough': 'all histories of depth 3 (6 x 56^3 = 630k histories; capped by the wall budget, the cut is reported)'}
 OUTSIDE = 'histories deeper than the bound; frames whose sub-frame count deviates from the header (undocumented deviation, outside the property\'s quantifier); rates other than the enumerated ones'
 ASSUMPTIONS = ['a frame is "filled" when it holds at least one point or one sub-frame (gap frames created by an indexed store beyond the end are not)']
@@ -85,12 +85,19 @@ def per_step(k, before, call, after, st, sec):
         if st.cfg.get('start') == 4: O = [o for o in O if '/lists/label-order' not in o.locus]
     return O
 
+def resub_jobs(tier):
+    return [{'entry': 'h_resub', 'harness': 'h_hist.cpp', 'name': 'resampled-in-place', 'cfg': {'frames': n, 'sub0': a, 'sub1': b, 'channels': c}}
+            for n in (1, 2) for (a, b) in ((2, 3), (2, 4), (3, 1)) for c in ((1, 2) if tier == 'quick' else (1, 2, 3))]
+
+def resub_obligations(sec, job, st):
+    return views(obsmodel.parse_dump(sec['after']), 'resampled/views', 'after every frame was replaced by one with %d instead of %d sub-frames' % (job['cfg']['sub1'], job['cfg']['sub0']))
+
 def jobs(tier, seed):
     out = []
     # (the free-rate kernels are the longest single jobs - one to three minutes of floating-point solving each - so they are scheduled first)
     for n in ((2, 1) if tier == 'quick' else (5, 4, 3, 2, 1)):
         out.append({'entry': 'h_rates', 'harness': 'h_hist.cpp', 'name': 'rates', 'cfg': {'channels': n, 'steps': 2, 'free_point_rate': 0 if tier == 'quick' else 1}})
-    return out + hist_jobs(tier, seed, finish=0, extra_starts=(9,))
+    return out + resub_jobs(tier) + hist_jobs(tier, seed, finish=0, extra_starts=(9,))
 
 def rate_obligations(sec, job, st):
     O = []; k = 1
@@ -110,6 +117,7 @@ def rate_obligations(sec, job, st):
     return O
 
 def run_job(engine, job):
+    if job['name'] == 'resampled-in-place': return std_run(engine, job, resub_obligations, 'resub.end', ID, 'resampled')
     if job['name'] == 'rates': return std_run(engine, job, rate_obligations, 'rates.end', ID, 'rates', wall=250)
     return explore(engine, job, ID, per_step)
 
@@ -117,6 +125,8 @@ def native_confirm(nat, v):
     out, sec = native_sections(nat, v['replay'])
     if out['rc'] != 0: return None
     locus = v['id'].split('/', 2)[-1].split('@')[0]
+    if v['job'].get('name') == 'resampled-in-place':
+        return any(o.bad is True and o.locus == locus for o in resub_obligations(sec, v['job'], None))
     if v['job'].get('name') == 'rates':
         return any(o.bad is True and o.locus == locus for o in rate_obligations(sec, v['job'], None))
     for k, (b, call, a) in enumerate(steps_of(sec)):
